@@ -4,7 +4,9 @@ EXTENDS NamespacesContract, Json
 VARIABLE row
 Rows == {[kind |-> "nsparse", declared |-> d, late |-> l, use |-> u, where |-> w] :
             d \in {"none", "p", "default"}, l \in {"q", "p", "default"}, u \in {"q|e", "p|e", "e", "*|e", "|e", "[p|a]"}, w \in {"rule", "media"}}
-Init == row \in Rows
+DupRows == {[kind |-> "nsdupes", order |-> o] : o \in {<<"a", "b", "c", "d">>, <<"a", "b", "d", "c">>, <<"a", "d", "b", "c">>, <<"d", "c", "b", "a">>,
+                                                   <<"a", "c", "d">>, <<"c", "a", "b", "d">>}}
+Init == row \in Rows \cup DupRows
 Next == UNCHANGED row
 Spec == Init /\ [][Next]_row
 \* the reference observation satisfies the clauses (the contract is satisfiable on every row)
@@ -13,6 +15,6 @@ RefObs(r) == LET usable == r.use \in {"e", "*|e", "|e"} \/ (r.use \in {"p|e", "[
                   present |-> usable,
                   uri |-> CASE r.use \in {"p|e", "[p|a]"} -> "u1" [] r.use = "e" -> (IF r.declared = "default" THEN "u1" ELSE "none")
                             [] r.use = "*|e" -> "*any*" [] OTHER -> ""]
-Satisfiable == NsParseFailing(row, RefObs(row)) = "ok"
+Satisfiable == row.kind = "nsparse" => NsParseFailing(row, RefObs(row)) = "ok"
 EmitRow == PrintT(<<"ROW", ToJson(row)>>)
 =============================================================================
